@@ -156,7 +156,14 @@ def field_matches(field, host, addr, port):
         if net is not None and any(c in field for c in '*?/!'):
             # an address / CIDR pattern names the plain (default port) address: in the [name]:port pass it
             # matches nothing, positive or negated (/repo 9f68483); it is consulted by the fallback lookup
-            hit = not port and bool(addr) and ipaddress.ip_address(addr) in net
+            # the address is the peer address, or the host itself when it is written as an IP and no address is known
+            ip = addr
+            if not ip:
+                try:
+                    ip = str(ipaddress.ip_address(host))
+                except ValueError:
+                    ip = ''
+            hit = not port and bool(ip) and ipaddress.ip_address(ip) in net
         else:
             hit = (bool(h) and wild(pat, h)) or (bool(a) and wild(pat, a))
         if hit and negate:
